@@ -157,6 +157,37 @@ def check_cases(ctx, cases):
         ctx.count("interleaved-pairs")
         if a != o1 or b != o2:
             ctx.fail({"log": c1["log"], "other_log": c2["log"]}, "two sorts consumed in lockstep give other sequences than each of them alone", "interleaved-differs", {"alone": [o1[:20], o2[:20]], "lockstep": [a[:20], b[:20]]})
+    # the same sort in an interpreter started with -O (assert statements stripped): same sequences
+    if len(cases) > 3 or any(c.get("interpreter") for c in cases):
+        import os
+        import subprocess
+        import sys
+        import json as _json
+
+        from common import scratch_dir
+
+        sample = [(c, o) for c, o in zip(cases, impls) if o is not None and 0 < len(c["log"]) <= 60][:40]
+        d_ = scratch_dir("c20o")
+        try:
+            with open(os.path.join(d_, "logs.jsonl"), "w") as fh:
+                for c, _ in sample:
+                    fh.write(_json.dumps(c["log"]) + "\n")
+            p = subprocess.run([sys.executable, "-O", os.path.join(os.path.dirname(os.path.abspath(__file__)), "c20_child.py"), os.path.join(d_, "logs.jsonl")],
+                               stdout=subprocess.PIPE, stderr=subprocess.PIPE, timeout=300)
+            lines = p.stdout.decode().splitlines()
+            if p.returncode == 0 and len(lines) == len(sample):
+                for (c, o), ln in zip(sample, lines):
+                    r_ = _json.loads(ln)
+                    ctx.count("optimised-interpreter")
+                    if r_.get("order") != o:
+                        ctx.fail(dict(c, interpreter="-O"), "in an interpreter started with -O the sort gives another sequence / raises " + str(r_.get("error")), "differs-under-python-O", {"got": r_})
+                        break
+            else:
+                ctx.notes.append("python -O child failed: " + p.stderr.decode("utf-8", "replace")[-300:])
+        finally:
+            import shutil
+
+            shutil.rmtree(d_, ignore_errors=True)
     res = ctx.model(reqs)
     other = []
     for case, r, order in zip(cases, res, impls):
